@@ -322,8 +322,66 @@ func (w *walkCtx) walkStruct(t reflect.Type, s *jsonschema.Schema, path string, 
 	}
 }
 
+// JSON-name collisions between differently named fields (what the inferred schema SAYS about them is the pinned known
+// finding KF-C04-1 / KF-C16-1 and is not compared here): whatever For returns without error must still be a schema that
+// Resolve and Marshal accept, twice the same.
+type c16Collide struct {
+	ID     int    `json:"id"`
+	Legacy string `json:"id,omitempty"`
+	Name   string `json:"name"`
+}
+type c16CollideThree struct {
+	A int     `json:"x"`
+	B string  `json:"x"`
+	C float64 `json:"x,omitempty"`
+	D bool    `json:"d"`
+}
+
+func (c16) collisions(c *fw.Case) {
+	t := gen.Pick(c.R, []reflect.Type{reflect.TypeFor[c16Collide](), reflect.TypeFor[[]c16Collide](), reflect.TypeFor[c16CollideThree](), reflect.TypeFor[map[string]*c16CollideThree](), reflect.TypeFor[struct {
+		In c16Collide `json:"in"`
+	}]()})
+	var prev []byte
+	for rep := 0; rep < 2; rep++ {
+		var s *jsonschema.Schema
+		var err error
+		if !c.CallChecked("ForType", map[string]any{"type": t.String(), "json_name_collision": true}, func() { s, err = jsonschema.ForType(t, nil) }) {
+			return
+		}
+		c.Eval(1)
+		if err != nil {
+			c.Count("collision_types_refused_by_For", 1)
+			return
+		}
+		data, merr, ok := marshalSchema(c, s, "schema inferred for "+t.String())
+		if !ok {
+			return
+		}
+		if merr != nil {
+			c.Violation("Marshal rejects the schema For returned without error: "+merr.Error(), map[string]any{"type": t.String()})
+			return
+		}
+		if _, rerr, ok := resolveSchema(c, s, t.String()); !ok {
+			return
+		} else if rerr != nil {
+			c.Violation("Resolve rejects the schema For returned without error: "+rerr.Error(), map[string]any{"type": t.String(), "schema": json.RawMessage(data)})
+			return
+		}
+		if rep == 1 && !bytes.Equal(prev, data) {
+			c.Violation("two ForType calls with equal arguments give different results", map[string]any{"type": t.String(), "first": json.RawMessage(prev), "second": json.RawMessage(data)})
+			return
+		}
+		prev = data
+	}
+	c.Nontrivial("json-name-collision|" + t.String())
+}
+
 func (p c16) Run(c *fw.Case) {
 	r := c.R
+	if c.Idx%25 == 3 {
+		p.collisions(c)
+		return
+	}
 	kind := c.Idx % 10
 	switch {
 	case kind == 8:
